@@ -152,6 +152,41 @@ def main():
         if i < 2:
             ck.sample({'opts': opts, 'wrappers': len(d['wrappers']), 'types': len(d['types']), 'check': res})
 
+    # ---------- stream A3: properties and sequences with names shared between classes: every link must stay inside its class -------
+    from gen import truth
+    for i in range(ck.scale(12, 150)):
+        w = truth.World(rng)
+        text = w.render()
+        open(os.path.join(wd, 't%d.h' % i), 'w').write(text)
+        p = vlib.sh([b['interrogate'], '-DCPPPARSER', '-oc', 't%d.cxx' % i, '-od', 't%d.in' % i, '-module', 'm', '-library', 'tl%d' % i, '-c', '-fnames', 't%d.h' % i], cwd=wd)
+        ck.count()
+        ck.dist('real:properties-and-sequences')
+        if p.returncode != 0:
+            continue
+        data = open(os.path.join(wd, 't%d.in' % i), 'rb').read()
+        d = dbfile.parse(data, fl['Type.F_array'])
+        replay = {'kind': 'spec', 'header': text, 'cmd': 'interrogate -DCPPPARSER -od h.in -oc h.cxx -module m -library l -c -fnames h.h'}
+        res = dict(kv.split('=') for kv in vlib.run_model('C11', 'check', [vlib.run_model('C11', 'load', ['(%d %s)' % (int(data.split()[0]), data.hex())])[0].split(' ', 1)[1]])[0].split())
+        if res['closed'] != '1' or res['links'] != '1':
+            ck.spec_failure('closed', 'database with properties/sequences is not closed or linked: %s' % res, replay)
+        okl = True
+        for ti, t in d['types'].items():
+            for si in t['make_seqs']:
+                sq = d['make_seqs'].get(si)
+                if sq is None or sq['scoped_name'] != t['scoped_name'] + '::' + sq['name'] or sq['length_getter'] not in t['methods'] or sq['element_getter'] not in t['methods']:
+                    okl = False
+                    ck.spec_failure('links:make_seq', 'type %s lists sequence %s whose getters are not its own methods' % (t['scoped_name'], sq and sq['scoped_name']), replay)
+            for ei in t['elements']:
+                e = d['elements'].get(ei)
+                if e is None or e['scoped_name'] != t['scoped_name'] + '::' + e['name']:
+                    okl = False
+                    ck.spec_failure('links:element', 'type %s lists element %s' % (t['scoped_name'], e and e['scoped_name']), replay)
+                elif e['getter'] and d['functions'][e['getter']]['cls'] != ti:
+                    okl = False
+                    ck.spec_failure('links:element', 'element %s has a getter of another class' % e['scoped_name'], replay)
+        if okl:
+            ck.nontrivial('t%d' % i)
+
     # ---------- stream A2: libraries whose signature hashes collide (names must stay distinct) -------
     groups = collide.birthday(rng, budget=ck.scale(20000, 60000), want=ck.scale(3, 12))
     for gi in range(ck.scale(4, 20)):
